@@ -5,21 +5,22 @@ import random
 import vlib
 
 ENGINE = "c28_clean"
-INVS = ("OnlyStrangersRemoved ProtectedUntouched WholeRepoOnlyWithoutSigrefs NoSigrefsRemovesRepo ErrorIsNoop ReportedIsRemoved "
+INVS = ("OnlyStrangersRemoved ProtectedUntouched WholeRepoOnlyWithoutSigrefs NoSigrefsRemovesRepo UnreadableIsError ErrorIsNoop ReportedIsRemoved "
         "UnsignedKept Idempotent")
 
 RULE = ("cases = maximal behaviours of the bounded model (peers L d1 d2 f o; 7 delegate sets; all namespace-state combinations "
-        "absent/unsigned/signed/corrupt; up to 3 (quick) / 4 (thorough) clean / re-fetch steps), each materialised as a real repository in a real "
+        "absent/unsigned/signed/corrupt; identity document at refs/rad/id readable / missing / of an unsupported version; up to 3 (quick) / "
+        "4 (thorough) clean / re-fetch / re-point-refs/rad/id steps), each materialised as a real repository in a real "
         "Storage (identity document with that delegate set, real namespaces, real signed refs) and stepped through the real "
         "Storage::clean with the projected namespace states compared after every step; quick tier: a seeded sample stratified by "
-        "(delegate set, local namespace state), thorough: all; gating = C28 on the real pre/post states (local and delegate "
+        "(delegate set, local namespace state, identity document state), thorough: all; gating = C28 on the real pre/post states (local and delegate "
         "namespaces unchanged while the repository is kept; repository removed only if the local peer had no sigrefs; an error "
         "changes nothing; no panic); non-trivial = clean steps that removed something; plus random 8-peer executions recorded "
         "from the implementation, on which TLC evaluates the module's invariants")
 
 
 def sig_of(r):
-    return (f"clean delegates={','.join(r['delegates'])} pre={json.dumps(r['pre'], sort_keys=True, separators=(',', ':'))} -> "
+    return (f"clean delegates={','.join(r['delegates'])} identity={r.get('iddoc_now', 'ok')} pre={json.dumps(r['pre'], sort_keys=True, separators=(',', ':'))} -> "
             f"{r['breach']}")
 
 
@@ -33,19 +34,26 @@ def run(ctx):
         ctx.violation(f"model:{res.violated}", "the transcribed cleanup violates the statement in the bounded model",
                       {"tlc_counterexample": res.error_trace[:80]})
         return ctx.finish(rule=RULE)
-    ctx.require_coverage(res, ["Clean", "Fetch"])
+    ctx.require_coverage(res, ["Clean", "Fetch", "BreakId"])
     cases = res.cases
     steps = [s for c in cases for s in c["steps"]]
+    unreadable = [c for c in cases if c["iddoc"] != "ok"]
+    if not (any(c["init"]["L"] == "signed" and "L" not in c["delegates"] and c["steps"][0]["res"] == "err" for c in unreadable) and
+            any(c["init"]["L"] == "signed" and "L" in c["delegates"] for c in unreadable) and
+            any(c["init"]["L"] in ("absent", "unsigned") and not c["steps"][0]["exists"] for c in unreadable) and
+            any(s["op"] == "breakid" for s in steps)):
+        raise vlib.ToolError("vacuous case set: unreadable identity document classes missing")
     if not (any(not s["exists"] for s in steps) and any(s["res"] == "err" for s in steps) and
             any(s["op"] == "fetch" for s in steps) and any(s["op"] == "clean" and s["exists"] and s["ret"] for s in steps)):
         raise vlib.ToolError("vacuous case set")
     # 2. two wrong variants must be rejected by TLC
-    for cfg, inv in (("MCClean_dev.cfg", "OnlyStrangersRemoved"), ("MCClean_dev2.cfg", "WholeRepoOnlyWithoutSigrefs")):
+    for cfg, inv in (("MCClean_dev3.cfg", "ProtectedUntouched"), ("MCClean_dev.cfg", "OnlyStrangersRemoved"),
+                     ("MCClean_dev2.cfg", "WholeRepoOnlyWithoutSigrefs")):
         dev = ctx.tlc("MCClean", cfg, workers=2, timeout=300, coverage=False, count=False,
                       label=f"sanity: wrong variant must violate {inv}")
         if dev.violated != inv:
             raise vlib.ToolError(f"sanity run {cfg}: expected violation of {inv}, got {dev.violated}")
-        if not thorough:
+        if not thorough and cfg == "MCClean_dev.cfg":
             break
     # 3. spec -> implementation
     if thorough:
@@ -54,10 +62,10 @@ def run(ctx):
         rnd = random.Random(ctx.seed)
         strata = {}
         for c in sorted(cases, key=lambda c: json.dumps(c, sort_keys=True)):
-            strata.setdefault((",".join(c["delegates"]), c["init"]["L"]), []).append(c)
+            strata.setdefault((",".join(c["delegates"]), c["init"]["L"], c["iddoc"]), []).append(c)
         chosen = []
         for k in sorted(strata):
-            chosen += rnd.sample(strata[k], min(8, len(strata[k])))
+            chosen += rnd.sample(strata[k], min(6 if k[2] == "ok" else 4, len(strata[k])))
     cpath = ctx.write_cases(chosen)
     out = os.path.join(ctx.work, "verdicts.ndjson")
     ctx.engine(ENGINE, ["--mode", "replay", "--cases", cpath, "--out", out, "--threads", 6], timeout=3000)
@@ -82,7 +90,7 @@ def run(ctx):
     recorded = ctx.read_ndjson(rec)
     ok, info, tres = ctx.validate("TraceClean", "TraceClean_strict.cfg", rec, timeout=900,
                                   label="trace validation (strict): every recorded clean is a Clean!Clean step; all invariants")
-    GATING = ("OnlyStrangersRemoved", "ProtectedUntouched", "WholeRepoOnlyWithoutSigrefs", "ErrorIsNoop")
+    GATING = ("OnlyStrangersRemoved", "ProtectedUntouched", "WholeRepoOnlyWithoutSigrefs", "ErrorIsNoop")  # on the ghost delegate set
     drift_trace = False
     if not ok and info.get("violated") not in GATING:
         drift_trace = True
@@ -103,7 +111,7 @@ def run(ctx):
     ctx.cov["drift_recorded_trace_rejected"] = drift_trace
     if summary["drift"] or drift_trace:
         vlib.log(f"MODEL-DRIFT (not a violation): real cleanup differs from the model (replay: {summary['drift']}, strict trace rejected: {drift_trace})")
-    ctx.assumptions += ["the delegate set is the one of the identity document at the canonical refs/rad/id (it does not change during a behaviour)",
+    ctx.assumptions += ["the delegate set is the one of the last readable identity document at the canonical refs/rad/id (it does not change during a behaviour); an unreadable document is realised as a commit without embeds/radicle.json or with a version-2 document",
                         "namespaces are observed through their references (absent / no sigrefs / sigrefs verify / sigrefs do not verify); git objects are not inspected",
                         "followed peers are not distinguished by Repository::clean (policy is not consulted): `f` is just another non-delegate"]
     return ctx.finish(rule=RULE)
@@ -117,7 +125,7 @@ def replay(ctx, path):
         print(json.dumps(d)[:2000])
         ctx.cleanup()
         return 0
-    p = ctx.write_cases([{"delegates": d["delegates"], "init": d["init"], "steps": d["steps"]}], "one.ndjson")
+    p = ctx.write_cases([{"delegates": d["delegates"], "init": d["init"], "iddoc": d.get("iddoc", "ok"), "steps": d["steps"]}], "one.ndjson")
     out = os.path.join(ctx.work, "o.ndjson")
     ctx.engine(ENGINE, ["--mode", "replay", "--cases", p, "--out", out, "--threads", 1])
     bad = False
